@@ -198,7 +198,15 @@ pub fn gen(args: &Args) {
         let params = p.params();
         let loc = site.location();
         let dr = DateRange::from(base..=e);
+        // the range call before it, on the same thread: another place (or other angles), the dates just before
+        let lon0 = r.range(-1_800_000, 1_800_000);
+        let site0 = Site { dlat: 0, lat: r.range(490_000, 640_000) * if north { 1 } else { -1 }, lon: lon0, el: 0, gmt: natural_gmt(lon0) };
+        let mut p0 = P::of_method(*[1usize, 2, 3, 5, 6][..].get((r.next() % 5) as usize).unwrap());
+        p0.pol = p.pol;
+        let (params0, loc0) = (p0.params(), site0.location());
+        let dr0 = DateRange::from((base - chrono::Duration::days(r.range(5, 20)))..=(base - chrono::Duration::days(1)));
         let g = guarded(Duration::from_secs(60), move || {
+            let _ = prayer_times_dt_rng(&params0, loc0, &dr0);
             let m = prayer_times_dt_rng(&params, loc, &dr);
             let n = m.len() as i64;
             let first = m.keys().next().map(|d| dn_of(*d)).unwrap_or(0);
